@@ -610,7 +610,7 @@ pub fn build_unit(h: HeaderSpec, unit_off: u64, nodes: &[NodeSpec], pad: usize) 
     // sibling values, refined to a fixed point (ref_udata sizes depend on them)
     let mut sib: Vec<u64> = vec![0; n];
     let mut result = None;
-    for _round in 0..6 {
+    for _round in 0..24 {
         let mut e = Enc::new(h.cfg.big);
         let mut elems: Vec<Elem> = vec![];
         let mut node_elem = vec![0usize; n];
